@@ -136,7 +136,7 @@ theorem errs_decode_all (fuel : Nat) :
       cases d <;> unfold decodeDop <;>
         repeat (first
           | exact ihDop _ | exact ihStatic _ _ _ | exact ihN _ _ | exact ihEnd _ | exact ihMark _ _ _ | exact ihComp _
-          | exact errs_decodeDct _ | errs1)
+          | exact ihParam _ | exact errs_decodeDct _ | errs1)
     · intro item sz n
       unfold decodeStaticItems
       repeat (first | exact ihDop _ | exact ihStatic _ _ _ | errs1)
